@@ -499,6 +499,12 @@ def apply_mutation(tree, m):
     k = m["t"]
     if k in ("password", "n-layout", "none"):
         return t
+    if k == "sig-del":
+        t[1][:] = [a for a in t[1] if a[0] != "Signature"]
+        return t
+    if k == "sig-set":
+        set_attr(t, "Signature", m["v"])
+        return t
     n = node_at(t, m["path"])
     if k == "attr-set" or k == "n-blacklisted":
         if k == "attr-set" and attr(n, m["k"]) is None:
@@ -646,6 +652,14 @@ def gen_mutations(rng, tree, password, n, exhaustive=False):
         elif c == 16:
             pw = password
             out.append({"t": "password", "pw": rng.choice([pw + " ", pw[:-1], pw.swapcase() if pw.swapcase() != pw else pw + "x", "", pw + "́", "x" + pw, pw * 2 or "p"])})
+        elif c == 17 and rng.random() < 0.5:
+            sig = attr(tree, "Signature") or ""
+            raw = base64.b64decode(sig) if sig else b""
+            out.append(rng.choice([
+                {"t": "sig-del"}, {"t": "sig-set", "v": ""}, {"t": "sig-set", "v": "AAAAAAAAAAAAAAAAAAAAAA=="},
+                {"t": "sig-set", "v": base64.b64encode(raw[:15]).decode()}, {"t": "sig-set", "v": base64.b64encode(raw + b"\x00").decode()},
+                {"t": "sig-set", "v": base64.b64encode(bytes([raw[0] ^ 1]) + raw[1:]).decode() if raw else "AA=="},
+                {"t": "sig-set", "v": " " + sig[:7] + " " + sig[7:]}]))  # the last one decodes to the same octets: neutral
         # neutral rewrites
         elif c == 17:
             out.append({"t": "n-attr-order", "path": p})
@@ -993,7 +1007,7 @@ def run_impl(case):
                 digest = hashlib.sha256(bytes(h.output)).digest()
             except ValueError:
                 digest = b""
-            sig = base64.b64decode(attr(mt, "Signature") or "")
+            sig = sig_octets(mt) or b""
             line = f"c31 verify {hexb(hashed)} {hexb(sig)} {hexb(digest)} {evtoks}".rstrip()
         return {"out": f"{acc} | {load}", "line": line, "expect": acc}
     # views on the loaded keyring
@@ -1121,7 +1135,7 @@ def oracle(case, out):
             if out != hexb(want):
                 return "hashed octets differ from the keyring signature format"
         return None
-    changed = norm(tree) != norm(mt) or pw != true_pw
+    changed = norm(tree) != norm(mt) or pw != true_pw or sig_octets(tree) != sig_octets(mt)
     signable = own_sig_input(mt, kdf(pw)) is not None
     load = out.split(" | ")[1] if view == "verify" else out
     acc = out.split(" | ")[0] if view == "verify" else None
@@ -1144,6 +1158,13 @@ def oracle(case, out):
     if load != "ok " + want:
         return "loaded content differs from what the keyring contains: " + first_diff(load, "ok " + want)
     return None
+
+
+def sig_octets(tree):
+    try:
+        return base64.b64decode(attr(tree, "Signature") or "")
+    except Exception:  # noqa: BLE001
+        return None
 
 
 def first_diff(a, b):
